@@ -631,12 +631,22 @@ where
     // Build per-instance domains.
     let mut trace_domains = Vec::with_capacity(n_instances);
     let mut ext_trace_domains = Vec::with_capacity(n_instances);
-    for &ext_db in degree_bits {
+    for (&ext_db, &log_qd) in degree_bits.iter().zip(log_quotient_degrees.iter()) {
         let base_db = ext_db.checked_sub(config.is_zk()).ok_or_else(|| {
             VerificationError::InvalidProofShape(
                 "Extended degree bits smaller than ZK adjustment".to_string(),
             )
         })?;
+        // Prover-supplied: the trace and quotient domain constructors below panic beyond the
+        // PCS's two-adic group.
+        if ext_db
+            .checked_add(log_qd)
+            .is_none_or(|b| b > pcs.log_max_lde_height())
+        {
+            return Err(VerificationError::InvalidProofShape(format!(
+                "degree_bits {ext_db} is out of range for the PCS"
+            )));
+        }
         trace_domains.push(pcs.natural_domain_for_degree(1 << base_db));
         ext_trace_domains.push(pcs.natural_domain_for_degree(1 << ext_db));
     }
